@@ -34,7 +34,7 @@ structure UpdObs where
   deriving Repr
 
 inductive Clause
-  | windowCovers | outsideWindow | insideFormula | noopUpdate | tickWindow | tickInside | refsAgree
+  | windowCovers | outsideWindow | insideFormula | noopUpdate | tickWindow | tickInside | refsAgree | ownComputed
   deriving Repr, DecidableEq
 
 def Clause.name : Clause → String
@@ -45,6 +45,7 @@ def Clause.name : Clause → String
   | .tickWindow => "timer_update_window_reaches_from_now_to_a_day_ahead"
   | .tickInside => "inside_iff_ranges_includes_excludes_after_timer_update"
   | .refsAgree => "inside_agrees_with_included_and_excluded_periods"
+  | .ownComputed => "own_ranges_computed_for_the_refreshed_region"
 
 /-- The effective begin of the refreshed region. -/
 def UpdObs.effB (o : UpdObs) : Int :=
@@ -176,6 +177,21 @@ def specRefs (o : UpdObs) (incNow excNow : List Bool) (q : Int × Bool) : Option
     if q.1 < vb ∨ q.1 > ve then none
     else if q.2 = expectWithRefs o (incNow.any id) (excNow.any id) q.1 then none else some .refsAgree
   | _, _ => none
+
+/-! ### The period's own ranges are computed for the whole refreshed region
+
+  `specUpdate` takes "own" as what the update function returned.  The property speaks about the
+  period's ranges: whenever a call refreshes a region `[b', e]` (throws the stored segments of that
+  region away), the ranges must have been evaluated for a region that covers it — otherwise
+  instants of the refreshed region that lie in a range are silently reported "outside".  Asking
+  for more, or also when nothing is refreshed, is no violation.  `asked` = the `(begin, end)` the
+  update function was invoked with, as observed (`none` = it was not invoked). -/
+
+def specAsk (o : UpdObs) (asked : Option (Int × Int)) : Option Clause :=
+  if o.noop then none
+  else match asked with
+    | some (fb, fe) => if fb ≤ o.effB ∧ o.e ≤ fe then none else some .ownComputed
+    | none => some .ownComputed
 
 /-- The observation the *model* produces for one call: this is the "trace of the model" the
     theorems speak about (the driver builds the same record from the implementation's output). -/
